@@ -29,11 +29,13 @@ RULE = (
 ASSUMPTIONS = [
     "CPython evaluating the original comprehension on python sequences is the reference; the lowered query is evaluated by "
     "CPython under the LINQ prelude; compared exactly as lists. Multiple for clauses are outside the statement.",
-    "python's own constructor (dataclasses.asdict(C(*a, **k)) / C(*a, **k)._asdict()) is the binder oracle, compared as a mapping.",
+    "python's own binder (inspect.signature(C).bind(*a, **k).arguments; the real constructor must also accept the call) is the "
+    "oracle for which key receives which argument, compared as a mapping; dataclass variants include an init=False field and a "
+    "keyword-only field declared first.",
     "Constructor calls that omit fields or bind a field twice are not generated (python raises TypeError; the statement is silent).",
 ]
 BUDGET = {"quick": (6, 800), "thorough": (16, 6000)}
-EXHAUSTIVE_NOTE = "(b): dataclass and NamedTuple with 1-4 fields x every positional/keyword split x every keyword order (+ unknown keyword, surplus argument), fully enumerated"
+EXHAUSTIVE_NOTE = "(b): dataclass and NamedTuple with 1-4 fields (plain, with an init=False field, with a keyword-only first field) x every positional/keyword split x every keyword order (+ unknown keyword, surplus argument), fully enumerated"
 EXHAUSTIVE_SHARDS = {"quick": 4, "thorough": 8}
 
 FIELDS = ["fa", "fb", "fc", "fd"]
@@ -81,7 +83,14 @@ def _dc_case(draw):
     npos = draw(st.integers(0, n))
     kw = draw(st.permutations(fields[npos:]))
     bad = draw(st.sampled_from([None, None, None, None, "unknown", "surplus"]))
-    return {"kind": "dc", "style": draw(st.sampled_from(["dataclass", "namedtuple"])), "fields": fields, "pos": npos, "kw": list(kw), "bad": bad}
+    style = draw(st.sampled_from(["dataclass", "namedtuple"]))
+    variant = draw(st.sampled_from([None, None, "init_false", "kw_only_first"])) if style == "dataclass" else None
+    case = {"kind": "dc", "style": style, "fields": fields, "pos": npos, "kw": [], "bad": bad, "variant": variant}
+    order = _sig_order(case)
+    if variant == "kw_only_first":
+        case["pos"] = npos = min(npos, n - 1)
+    case["kw"] = list(draw(st.permutations(order[npos:])))
+    return case
 
 
 @st.composite
@@ -109,6 +118,13 @@ def exhaustive(tier):
             for npos in range(n + 1):
                 for kw in itertools.permutations(fields[npos:]):
                     yield {"kind": "dc", "style": style, "fields": fields, "pos": npos, "kw": list(kw), "bad": None}
+            if style == "dataclass":
+                for variant in ("init_false", "kw_only_first"):
+                    base = {"kind": "dc", "style": style, "fields": fields, "variant": variant}
+                    order = _sig_order(base)
+                    for npos in range(n + (0 if variant == "kw_only_first" else 1)):
+                        for kw in itertools.permutations(order[npos:]):
+                            yield dict(base, pos=npos, kw=list(kw), bad=None)
             yield {"kind": "dc", "style": style, "fields": fields, "pos": n, "kw": [], "bad": "surplus"}
             yield {"kind": "dc", "style": style, "fields": fields, "pos": max(n - 1, 0), "kw": fields[max(n - 1, 0):], "bad": "unknown"}
 
@@ -185,12 +201,31 @@ def _check_comp(case, r: Result) -> Result:
     return r
 
 
+def _sig_order(case):
+    """constructor parameters in signature order (python moves keyword-only fields to the end; init=False fields vanish)"""
+    fields = case["fields"]
+    if case.get("variant") == "kw_only_first" and case["style"] == "dataclass":
+        return fields[1:] + fields[:1]
+    return fields
+
+
 def _dc_module(case):
     fields = case["fields"]
+    var = case.get("variant") if case["style"] == "dataclass" else None
     if case["style"] == "dataclass":
-        cls = "from dataclasses import dataclass\n@dataclass\nclass C:\n" + "".join(f"    {f}: float\n" for f in fields)
+        lines = []
+        for i, f in enumerate(fields):
+            if var == "kw_only_first" and i == 0:
+                lines.append(f"    {f}: float = field(kw_only=True)\n")
+            else:
+                lines.append(f"    {f}: float\n")
+            if var == "init_false" and i == 0:
+                lines.append("    tag: float = field(init=False, default=0.0)\n")
+        cls = "from dataclasses import dataclass, field\n@dataclass\nclass C:\n" + "".join(lines)
     else:
         cls = "from typing import NamedTuple\nclass C(NamedTuple):\n" + "".join(f"    {f}: float\n" for f in fields)
+    order = _sig_order(case)
+    fields = order
     pos = [ARGS[f] for f in fields[: case["pos"]]]
     if case["bad"] == "surplus":
         pos.append("99")
@@ -222,6 +257,8 @@ def _check_dc(case, r: Result) -> Result:
     r.sample = {"style": case["style"], "call": call}
     r.key = case["style"] + call
     r.labels += ["sugar:" + case["style"], f"fields:{len(case['fields'])}"]
+    if case.get("variant"):
+        r.labels.append("dataclass-variant:" + case["variant"])
     if case["bad"]:
         r.labels.append("malformed:" + case["bad"])
     r.nontrivial = len(case["fields"]) >= 2 and 0 < case["pos"] < len(case["fields"]) and not case["bad"]
@@ -239,8 +276,14 @@ def _check_dc(case, r: Result) -> Result:
         lam = q.args[1]
         if not isinstance(lam.body, ast.Dict):
             return r.fail(f"{call} was not lowered to a dictionary: {ast.unparse(lam)}")
-        inst = eval(call, {"C": mod.C, "e": _E})
-        want = dataclasses.asdict(inst) if case["style"] == "dataclass" else inst._asdict()
+        import inspect
+
+        class _Bind:  # python's own binder: which parameter receives which argument
+            def __call__(self, *a, **k):
+                return dict(inspect.signature(mod.C).bind(*a, **k).arguments)
+
+        want = eval(call, {"C": _Bind(), "e": _E})
+        eval(call, {"C": mod.C, "e": _E})  # and the real constructor accepts the call
         got = dict(pyeval.evaluate(lam, {})(_E))
         if sorted(got.items()) != sorted(want.items()):
             return r.fail(f"{call} lowered to {ast.unparse(lam.body)} = {got}; python's constructor binds {dict(want)}")
